@@ -314,7 +314,7 @@ func judge(p *gen.Program, exp gen.Outcome, r harness.Result, injMsg string) cfJ
 			return j
 		}
 	}
-	if injMsg != "" && r.Scope != nil {
+	if injMsg != "" && r.Scope != nil && !exp.CaughtAsData {
 		// an injected error that was raised must never survive as data
 		if where := scanFor(r.Scope, injMsg); where != "" {
 			j.what = "stored"
